@@ -54,14 +54,18 @@ def check(case):
     if isinstance(fm, Raised):
         return out
     obs = build.observe(fm)
-    out += rt.wellformed(obs, pid)
+    # (a document written from a model outside the format's fragment, or an odd document, may legitimately come back
+    # with a repeated name - neither C02 nor C04 claims unique names for those; the tree claims stay)
+    lenient = bool(case.get("foreign_model") or case.get("odd"))
+    out += [(k, d) for k, d in rt.wellformed(obs, pid) if not (lenient and k.endswith("duplicate-names"))]
     # the same reader object asked again must return a proper tree again (and the same model)
     # (a reader that refuses a second call is not judged here - C02 speaks about the models that are returned)
     if fm_again is not None and not isinstance(fm_again, Raised):
         obs2 = build.observe(fm_again)
-        out += [(k.replace(".wf.", ".wf-second-transform."), d) for k, d in rt.wellformed(obs2, pid)]
+        out += [(k.replace(".wf.", ".wf-second-transform."), d) for k, d in rt.wellformed(obs2, pid)
+                if not (lenient and k.endswith("duplicate-names"))]
         out += [(k.replace(".wf.", ".wf-first-model-after-second-transform."), d)
-                for k, d in rt.wellformed(build.observe(fm), pid)]
+                for k, d in rt.wellformed(build.observe(fm), pid) if not (lenient and k.endswith("duplicate-names"))]
     exprs = rt.usable_constraints(fm, pid, out)
     if not obs["problems"] and len(obs["features"]) <= 400:
         operations_traverse(fm, pid, out)
